@@ -44,6 +44,58 @@ func init() {
 		"strings.ContainsAny":            sumContainsAny,
 		"strings.EqualFold":              sumEqualFold,
 		"strings.Index":                  sumIndex,
+		"strings.IndexRune": func(fr *frame, a []value) value {
+			return sumIndex(fr, []value{a[0], Str{R: []*Term{fr.m.sanitizeRune(a[1].(*Term))}}})
+		},
+		"strings.IndexByte": func(fr *frame, a []value) value {
+			b := fr.m.simplify(a[1].(*Term))
+			if !b.IsConst() || b.U >= 0x80 {
+				panic(unsupported("strings.IndexByte with a symbolic or non-ASCII byte"))
+			}
+			return sumIndex(fr, []value{a[0], Str{R: []*Term{mkBV(32, b.U)}}})
+		},
+		"strings.Join": func(fr *frame, a []value) value {
+			var out []*Term
+			opq := false
+			sep := a[1].(Str)
+			for i, e := range a[0].([]value) {
+				if i > 0 {
+					out = append(out, sep.R...)
+				}
+				es := e.(Str)
+				out = append(out, es.R...)
+				opq = opq || es.Opaque
+			}
+			return Str{R: out, Opaque: opq || sep.Opaque}
+		},
+		"(*strings.Builder).Grow": func(fr *frame, a []value) value { return nil },
+		"unicode/utf8.DecodeRuneInString": func(fr *frame, a []value) value {
+			s := a[0].(Str)
+			fr.m.needConcreteStr(s, "DecodeRuneInString")
+			if len(s.R) == 0 {
+				return tuple{mkBV(32, 0xFFFD), mkInt(64, 0)}
+			}
+			return tuple{fr.m.sanitizeRune(s.R[0]), fr.m.utf8Len(s.R[0])}
+		},
+		"unicode/utf8.DecodeLastRuneInString": func(fr *frame, a []value) value {
+			s := a[0].(Str)
+			fr.m.needConcreteStr(s, "DecodeLastRuneInString")
+			if len(s.R) == 0 {
+				return tuple{mkBV(32, 0xFFFD), mkInt(64, 0)}
+			}
+			r := s.R[len(s.R)-1]
+			return tuple{fr.m.sanitizeRune(r), fr.m.utf8Len(r)}
+		},
+		"unicode/utf8.ValidString": func(fr *frame, a []value) value {
+			c := fr.m.ctx
+			var res *Term = trueT
+			for _, r := range a[0].(Str).R {
+				if !r.Valid {
+					res = c.And(res, c.Ult(r, mkBV(32, pseudoBase)))
+				}
+			}
+			return res
+		},
 		"unicode/utf8.RuneCountInString": func(fr *frame, a []value) value { return mkInt(64, int64(len(a[0].(Str).R))) },
 		"unicode/utf8.RuneLen":           func(fr *frame, a []value) value { return fr.m.utf8Len(a[0].(*Term)) },
 		"unicode.ToUpper":                func(fr *frame, a []value) value { return fr.m.caseMapRune(a[0].(*Term), true) },
@@ -73,7 +125,7 @@ func init() {
 		"strconv.FormatFloat": func(fr *frame, a []value) value {
 			f := fr.m.simplify(a[0].(*Term))
 			if !f.IsConst() {
-				return Str{Opaque: true}
+				return Str{Opaque: true, OTag: "ftoa(" + f.SMT() + ")"}
 			}
 			fm := fr.m.concretize(a[1].(*Term), 1, "fmt")
 			pr := fr.m.concretize(a[2].(*Term), 1, "prec")
@@ -83,7 +135,7 @@ func init() {
 		"strconv.FormatInt": func(fr *frame, a []value) value {
 			t := fr.m.simplify(a[0].(*Term))
 			if !t.IsConst() {
-				return Str{Opaque: true}
+				return Str{Opaque: true, OTag: "itoa(" + t.SMT() + ")"}
 			}
 			return mkStr(strconv.FormatInt(t.Int(), int(fr.m.concretize(a[1].(*Term), 1, "base"))))
 		},
@@ -294,7 +346,11 @@ func builderAppend(fr *frame, cell *value, add Str) {
 	r = append(r, cur.R...)
 	r = append(r, add.R...)
 	fr.m.noteWrite(fr, cell)
-	*cell = Str{R: r, Opaque: cur.Opaque || add.Opaque}
+	if cur.Opaque || add.Opaque {
+		*cell = Str{Opaque: true, OTag: cur.repr() + "+" + add.repr()}
+	} else {
+		*cell = Str{R: r}
+	}
 }
 
 func sumBuilderWriteRune(fr *frame, a []value) value {
@@ -438,7 +494,7 @@ func sumItoa(fr *frame, a []value) value {
 	if t.IsConst() {
 		return mkStr(strconv.Itoa(int(t.Int())))
 	}
-	return Str{Opaque: true}
+	return Str{Opaque: true, OTag: "itoa(" + t.SMT() + ")"}
 }
 
 // ---------------------------------------------------------------------
@@ -487,8 +543,17 @@ func sumTimeUnix(fr *frame, a []value) value {
 	m := fr.m
 	sec, nsec := a[0].(*Term), a[1].(*Term)
 	ns := m.simplify(nsec)
-	if !ns.IsConst() || ns.Int() < 0 || ns.Int() >= 1e9 {
-		panic(unsupported("time.Unix with symbolic or out-of-range nsec"))
+	if ns.IsConst() {
+		if ns.Int() < 0 || ns.Int() >= 1e9 {
+			panic(unsupported("time.Unix with out-of-range nsec"))
+		}
+		return m.mkTime(sec, ns)
+	}
+	// symbolic nanoseconds: must be known to lie in [0, 1e9) (no normalisation needed)
+	c := m.ctx
+	inr := c.And(c.Sle(mkInt(64, 0), ns), c.Slt(ns, mkInt(64, 1000000000)))
+	if !m.branch(inr) {
+		panic(unsupported("time.Unix with symbolic nsec outside [0, 1e9)"))
 	}
 	return m.mkTime(sec, ns)
 }
@@ -648,11 +713,43 @@ func sumToString(fr *frame, a []value) value {
 	}
 	if n, ok := m.toNative(v); ok {
 		if _, isTime := n.(time.Time); isTime {
-			return Str{Opaque: true} // zone-dependent formatting
+			return Str{Opaque: true, OTag: "tostring(" + valueTag(v) + ")"} // zone-dependent formatting
 		}
 		return mkStr(cconv.StringConverter.ToString(n))
 	}
-	return Str{Opaque: true}
+	return Str{Opaque: true, OTag: "tostring(" + valueTag(v) + ")"}
+}
+
+// valueTag describes an interface payload for the identity of opaque text.
+func valueTag(v iface) string {
+	if v.t == nil {
+		return "nil"
+	}
+	switch p := v.v.(type) {
+	case *Term:
+		return typeString(v.t) + ":" + p.SMT()
+	case Str:
+		return "str:" + p.repr()
+	case structure:
+		var sb strings.Builder
+		sb.WriteString(typeString(v.t) + "{")
+		for _, f := range p {
+			if t, ok := f.(*Term); ok {
+				sb.WriteString(t.SMT() + ",")
+			} else {
+				sb.WriteString(fmt.Sprintf("%p,", f))
+			}
+		}
+		return sb.String() + "}"
+	case []value:
+		if len(p) == 0 {
+			return typeString(v.t) + "[]"
+		}
+		return fmt.Sprintf("%s[%p/%d]", typeString(v.t), &p[0], len(p))
+	case *value:
+		return fmt.Sprintf("%s@%p", typeString(v.t), p)
+	}
+	return fmt.Sprintf("%s:%T", typeString(v.t), v.v)
 }
 
 func sumConv(kind string) extFn {
@@ -716,7 +813,7 @@ func sumParseInt(fr *frame, a []value) value {
 	if m.branch(okv) {
 		return tuple{m.ctx.Var(m.nondetName("strconv.ParseInt.val"), SBV64), iface{}}
 	}
-	return tuple{mkInt(64, 0), iface{t: errT, v: Str{Opaque: true}}}
+	return tuple{mkInt(64, 0), iface{t: errT, v: Str{Opaque: true, OTag: "parse-error"}}}
 }
 
 // (time.Time).Sub for wall-clock times without monotonic reading and with
@@ -726,24 +823,30 @@ func sumTimeSub(fr *frame, a []value) value {
 	c := m.ctx
 	t, u := a[0].(structure), a[1].(structure)
 	tw, uw := m.simplify(t[0].(*Term)), m.simplify(u[0].(*Term))
-	if !tw.IsConst() || !uw.IsConst() || tw.U>>63 != 0 || uw.U>>63 != 0 {
-		panic(unsupported("time.Time.Sub with symbolic or monotonic wall field"))
+	// wall fields produced by the engine hold the nanoseconds only (no monotonic reading)
+	for _, w := range []*Term{tw, uw} {
+		if w.IsConst() && w.U>>30 != 0 {
+			panic(unsupported("time.Time.Sub with a monotonic or foreign wall field"))
+		}
 	}
-	dn := int64(tw.U&(1<<30-1)) - int64(uw.U&(1<<30-1))
+	dn := c.Sub(tw, uw) // in (-1e9, 1e9)
 	ts, us := t[1].(*Term), u[1].(*Term)
-	// seconds fit comfortably: |ext| < 2^62 is assumed by construction (mkTime adds a constant to a bounded value)
 	diff := c.Sub(ts, us)
-	if dn != 0 {
-		panic(unsupported("time.Time.Sub with different nanosecond parts"))
-	}
-	const maxSec = 9223372036 // floor((2^63-1)/1e9): the difference is exact up to here, saturated beyond
-	inr := c.And(c.Sle(mkInt(64, -maxSec), diff), c.Sle(diff, mkInt(64, maxSec)))
-	exact := c.Mul(diff, mkInt(64, 1000000000))
+	const maxSec = 9223372036 // floor((2^63-1)/1e9)
+	exact := c.Add(c.Mul(diff, mkInt(64, 1000000000)), dn)
 	sat := c.Ite(c.Slt(diff, mkInt(64, 0)), mkInt(64, -1<<63), mkInt(64, 1<<63-1))
-	if !m.branch(inr) {
-		return sat
+	// strictly inside the representable range the difference is exact
+	if m.branch(c.And(c.Slt(mkInt(64, -maxSec), diff), c.Slt(diff, mkInt(64, maxSec)))) {
+		return exact
 	}
-	return exact
+	if m.branch(c.Or(c.Eq(diff, mkInt(64, maxSec)), c.Eq(diff, mkInt(64, -maxSec)))) {
+		d := m.simplify(dn)
+		if d.IsConst() && d.Int() == 0 {
+			return exact // whole seconds: still exact at the last representable second
+		}
+		panic(unsupported("time.Time.Sub at the saturation edge with sub-second parts"))
+	}
+	return sat
 }
 
 func unicodeIsDigit(r rune) bool { return unicode.IsDigit(r) }
